@@ -65,9 +65,7 @@ func (te *Extractor) Extract(reader io.Reader) error {
 	te.deferredUpdates = make([]deferredUpdate, 0, 80)
 	doUpdates := func() error {
 		for i := len(te.deferredUpdates) - 1; i >= 0; i-- {
-			m := te.deferredUpdates[i]
-			err := files.UpdateMetaUnix(m.path, uint32(m.mode), m.mtime)
-			if err != nil {
+			if err := applyDeferredUpdate(te.deferredUpdates[i]); err != nil {
 				return err
 			}
 		}
@@ -406,6 +404,27 @@ type deferredUpdate struct {
 	mtime time.Time
 }
 
+// applyDeferredUpdate sets the recorded mode and modification time on a
+// directory created earlier by extractDir.
+//
+// Between recording the update and applying it, a later entry of the archive
+// may have replaced the (then empty) directory by a file or a symlink.
+// os.Chmod follows symlinks, so applying the stale update blindly would change
+// whatever the symlink points to, possibly outside of the extraction root. The
+// path is therefore checked again, without following links, and the update is
+// skipped when it is no longer a directory: the object that replaced it got
+// its own metadata when it was extracted.
+func applyDeferredUpdate(m deferredUpdate) error {
+	fi, err := os.Lstat(m.path)
+	if err != nil {
+		return err
+	}
+	if !fi.IsDir() {
+		return nil
+	}
+	return files.UpdateMetaUnix(m.path, uint32(m.mode), m.mtime)
+}
+
 func (te *Extractor) deferUpdate(path string, header *tar.Header) error {
 	if header.Mode == 0 && header.ModTime.IsZero() {
 		return nil
@@ -425,8 +444,7 @@ func (te *Extractor) deferUpdate(path string, header *tar.Header) error {
 		// if possible, apply the previous deferral.
 		m := te.deferredUpdates[n-1]
 		if strings.HasPrefix(m.path, prefix()) {
-			err := files.UpdateMetaUnix(m.path, uint32(m.mode), m.mtime)
-			if err != nil {
+			if err := applyDeferredUpdate(m); err != nil {
 				return err
 			}
 			te.deferredUpdates = te.deferredUpdates[:n-1]
